@@ -111,9 +111,10 @@ def eval_case(case, workdir, tdnames):
                        "detail": {"error": f"{type(e).__name__}: {str(e)[:300]}"}})
             return vs, 0
         expect_argv = ["cpp"] + (args if isinstance(args, list) else [args]) + [src]
-        if _popen_log[:1] != [expect_argv]:
+        seen = _popen_log[0] if _popen_log and isinstance(_popen_log[0], list) else None
+        if not _argv_ok(seen, expect_argv):
             vs.append({"kind": "cpp-argv", "sig": "argv", "case": case,
-                       "detail": {"expected": expect_argv, "observed": _popen_log[:2]}})
+                       "detail": {"expected_program_args_in_order_then_file": expect_argv, "observed": _popen_log[:2]}})
         tds = {e.name for e in ast.ext if type(e).__name__ == "Typedef"}
         if not case.get("manual", True):
             return vs + _types_usable(case, ast, tds, tdnames), len(tds)
@@ -137,6 +138,21 @@ def eval_case(case, workdir, tdnames):
             os.environ.pop("CPATH", None)
         else:
             os.environ["CPATH"] = env_before
+
+
+def _argv_ok(seen, expect):
+    """cpp must be started as the given program, with every element of cpp_args as ONE argument, in order, and the
+    file name as the last argument (extra options a future version may add are tolerated)."""
+    if not seen or seen[0] != expect[0] or seen[-1] != expect[-1]:
+        return False
+    i = 1
+    for a in expect[1:-1]:
+        while i < len(seen) - 1 and seen[i] != a:
+            i += 1
+        if i >= len(seen) - 1:
+            return False
+        i += 1
+    return True
 
 
 def _types_usable(case, ast, tds, tdnames):
